@@ -28,7 +28,7 @@ CHECKS = {
     'C04': dict(
         technique='type-directed generation from random message schemas (construction, not rejection) with an acceptance oracle: parser accepts, inferred reference types contain the schema types (own resolver), property-level schema check passes',
         level='bounded exploration: thousands of schema-consistent properties and predicates per run over all scope/pattern shapes, nested messages, fixed/variable arrays, arrays of messages, constants, aliases (incl. own alias), quantified variables, computed indices and every reachable built-in; any rejection is a violation',
-        note='well-typedness is by construction against hplverif/typesig.py; quantifiers range over primitive-element collections; sibling binders at different types are the listed known finding F12',
+        note='well-typedness is by construction against hplverif/typesig.py; quantifiers range over primitive-element collections; sibling binders at different types (finding F12) are repaired and generated freely',
         ref='DESIGN.md section 4, C04',
     ),
     'C05': dict(
